@@ -8,6 +8,8 @@ package c18
 import (
 	"fmt"
 	"math/rand"
+	"os"
+	"path/filepath"
 	"runtime"
 	"strings"
 	"time"
@@ -45,6 +47,10 @@ type stage struct {
 	Segs    []seg  `json:"producer,omitempty"`
 	YR      int    `json:"yield_in_reader,omitempty"`
 	FPad    int    `json:"filter_pad,omitempty"`
+	// the stage redirects its OWN stdin: file (`< $f`), dup (`3< $f 0<&3`),
+	// closed (`0<&-`). It then reads nothing from the pipe.
+	Redir     string   `json:"stdin_redirection,omitempty"`
+	FileLines []string `json:"file_lines,omitempty"`
 	// static upper bounds of what the stage can emit
 	maxV, maxLines, maxBytes, maxLen int
 	prodPad                          int
@@ -215,6 +221,52 @@ func genProgram(r *rand.Rand) *program {
 		s := &stage{I: i}
 		last := i == n-1
 		prevNative := i > 0 && p.Stages[i-1].Native != ""
+		if i > 0 && r.Intn(6) == 0 {
+			// a stage that redirects its own stdin away from the pipe
+			s.Redir = []string{"file", "file", "dup", "closed"}[r.Intn(4)]
+			for j, nl := 0, r.Intn(6); j < nl && s.Redir != "closed"; j++ {
+				s.FileLines = append(s.FileLines, fmt.Sprintf("s%dv%d", i, 5000+j))
+			}
+			if r.Intn(2) == 0 {
+				s.Native = []string{"nop", "count", "all", "take"}[r.Intn(4)]
+				if s.Redir == "closed" {
+					s.Native = "nop" // nothing can be read from a closed port
+				}
+				if s.Redir == "dup" {
+					s.Redir = "file"
+				}
+				switch s.Native {
+				case "count":
+					s.maxV = 1
+				case "all":
+					s.maxV = len(s.FileLines)
+				case "take":
+					s.K = r.Intn(len(s.FileLines) + 2)
+					s.maxV = s.K
+				}
+				s.maxLen = 8
+			} else {
+				s.Mode = []string{"ev", "w"}[r.Intn(2)]
+				s.Reader = "none"
+				if r.Intn(2) == 0 {
+					genProducer(r, p, s, -1, -1, true)
+				}
+			}
+			// make the writer in front of it exceed the channel buffer most of the time
+			if pv := p.Stages[i-1]; pv.Native == "" && r.Intn(4) > 0 {
+				var ids []string
+				for j, nx := 0, 40+r.Intn(50); j < nx; j++ {
+					ids = append(ids, fmt.Sprintf("s%dv%d", pv.I, 1000+j))
+				}
+				name := fmt.Sprintf("l%d_x", pv.I)
+				p.lists[name] = ids
+				pv.Segs = append([]seg{{Kind: "loop", IDs: ids, Y: yieldChoice(r), Name: name}}, pv.Segs...)
+				pv.maxV += len(ids)
+			}
+			p.Stages = append(p.Stages, s)
+			prev = s
+			continue
+		}
 		if i > 0 && !prevNative && r.Intn(5) == 0 {
 			// native builtin stage
 			var opts []string
@@ -321,12 +373,24 @@ func (p *program) text() string {
 	return strings.Join(parts, " |\n")
 }
 
+func (s *stage) redirText() string {
+	switch s.Redir {
+	case "file":
+		return fmt.Sprintf(" < $rfile%d", s.I)
+	case "dup":
+		return fmt.Sprintf(" 3< $rfile%d 0<&3", s.I)
+	case "closed":
+		return " 0<&-"
+	}
+	return ""
+}
+
 func (s *stage) text() string {
 	if s.Native != "" {
 		if s.Native == "take" {
-			return fmt.Sprintf("take %d", s.K)
+			return fmt.Sprintf("take %d", s.K) + s.redirText()
 		}
-		return s.Native
+		return s.Native + s.redirText()
 	}
 	var b strings.Builder
 	b.WriteString("{\n")
@@ -354,6 +418,10 @@ func (s *stage) text() string {
 		default:
 			fmt.Fprintf(&b, "%sif (eq $x[2] v) { %s } else { %s }\n", ind, v, bb)
 		}
+	}
+	if s.Redir == "file" || s.Redir == "dup" {
+		// reads the file it redirected its stdin to
+		fmt.Fprintf(&b, "  each {|x| v-recv %d $x }\n  v-eof %d\n", I, I)
 	}
 	switch s.Reader {
 	case "each":
@@ -401,7 +469,7 @@ func (s *stage) text() string {
 			fmt.Fprintf(&b, "  v-ev trybulk %d %s; print $%s-blob; v-ev okbulk %d %s\n", I, g.Name, g.Name, I, g.Name)
 		}
 	}
-	b.WriteString("}")
+	b.WriteString("}" + s.redirText())
 	return b.String()
 }
 
@@ -541,6 +609,24 @@ func (k *checker) checkPair(a *stage, la *stageLog, n *stage, rd *reader) {
 			return 0
 		}
 		return 0
+	}
+	if a.Native == "count" && a.Redir != "" {
+		// `count < file` writes the number of lines of the file
+		got := rd.merged
+		if rd.bandKnown {
+			got = append(append([]string{}, rd.v...), rd.b...)
+		}
+		want := fmt.Sprint(len(a.FileLines))
+		if n != nil {
+			// passed through another builtin: only the simplest are decided
+			if n.Native != "all" && n.Native != "only-values" {
+				return
+			}
+		}
+		if len(got) > 1 || (len(got) == 1 && got[0] != want) || (len(got) == 0 && rd.complete && rd.eof) {
+			k.fail("redir:count", fmt.Sprintf("%s: `count < file` with %s lines, the reader received %v", pair, want, got))
+		}
+		return
 	}
 	if nat == "count" {
 		total := len(la.tried['v']) + len(la.tried['b'])
@@ -750,6 +836,21 @@ func runOnce(c *mon.Case, p *program, code string) bool {
 	for pad := range p.pads {
 		elv.SetVar(ev, fmt.Sprintf("pad%d", pad), strings.Repeat("x", pad))
 	}
+	for _, s := range p.Stages {
+		if s.Redir == "file" || s.Redir == "dup" {
+			path := filepath.Join(c.Dir, fmt.Sprintf("c18-stdin-%d-%d.txt", c.I, s.I))
+			content := ""
+			for _, l := range s.FileLines {
+				content += l + "\n"
+			}
+			if err := os.WriteFile(path, []byte(content), 0o644); err != nil {
+				c.Inconclusive("cannot-write-scratch-file")
+				return false
+			}
+			defer os.Remove(path)
+			elv.SetVar(ev, fmt.Sprintf("rfile%d", s.I), path)
+		}
+	}
 	var res elv.Result
 	baseline := sched.Baseline()
 	out := sched.Run(func() { res = elv.Eval(ev, code) }, baseline, 3*time.Second, 90*time.Second)
@@ -776,8 +877,39 @@ func runOnce(c *mon.Case, p *program, code string) bool {
 	var prevInst *stage
 	var pendingNative *stage
 	for _, s := range p.Stages {
-		if s.Native != "" {
+		if s.Native != "" && s.Redir == "" {
 			pendingNative = s
+			continue
+		}
+		if s.Redir != "" {
+			c.Count("stages_with_own_stdin_redirection", 1)
+			// (on the unchanged tree the writer usually notices the reader's exit
+			// long before it has tried 33 values, so this is counted statically)
+			if prevInst.Native == "" && prevInst.maxV > 32 {
+				c.Count("stdin_redirections_after_writer_beyond_channel_buffer", 1)
+			}
+		}
+		if s.Native != "" {
+			// a builtin with its own stdin: it reads nothing from the pipe, and
+			// what it writes is determined by the file
+			rd := &reader{name: fmt.Sprintf("stage %d (%s%s)", s.I, s.Native, s.redirText()), bandKnown: true, early: true}
+			k.checkPair(prevInst, logs[prevInst.I], pendingNative, rd)
+			c.Count("early_exit_readers", 1)
+			if len(logs[prevInst.I].failed) > 0 {
+				c.Count("early_exits_noticed_by_writer", 1)
+			}
+			l := logs[s.I]
+			switch s.Native {
+			case "all":
+				l.tried['v'] = s.FileLines
+			case "take":
+				n := s.K
+				if n > len(s.FileLines) {
+					n = len(s.FileLines)
+				}
+				l.tried['v'] = s.FileLines[:n]
+			}
+			prevInst, pendingNative = s, nil
 			continue
 		}
 		if prevInst != nil {
@@ -790,7 +922,12 @@ func runOnce(c *mon.Case, p *program, code string) bool {
 				rd.bandKnown, rd.b, rd.eofB = true, l.recv, l.eof
 			case "none":
 				rd.bandKnown = true
-				if len(l.recv) > 0 {
+				if s.Redir == "file" || s.Redir == "dup" {
+					// it read its file instead: exactly the file's lines
+					if strings.Join(l.recv, ",") != strings.Join(s.FileLines, ",") || !l.eof {
+						k.fail("redir:file-content", fmt.Sprintf("stage %d redirected its stdin to a file with lines %v but read %v (eof=%v)", s.I, s.FileLines, l.recv, l.eof))
+					}
+				} else if len(l.recv) > 0 {
 					k.fail("recv:by-non-reader", "a stage that does not read recorded a receive")
 				}
 			default:
@@ -935,7 +1072,7 @@ func runOnce(c *mon.Case, p *program, code string) bool {
 func Spec() *mon.Spec {
 	return &mon.Spec{
 		ID: "C18", Level: "exploration", Race: true,
-		Rule: "case = random pipeline of 2..6 stages, run twice (GOMAXPROCS from {1,2,4,16}) on fresh interpreters under the race detector. Instrumented stages are Elvish lambdas: producers (0..300 values and 0..300 byte lines with unique ids, written one by one with put/echo or through the Frame API, or in bulk with put $@l / to-lines / one big print; padding up to 4 KB per line so that totals exceed the 32-slot channel and the 64 KiB pipe), filters (each / for x [(all)]) that record every item and re-emit it under their own id on the value band, the byte band or the band it came on, early-exit readers (read k values straight from the channel, read k lines with read-line, or read nothing), throwers (fail after k items / at the end); native stages all, take k, to-lines, from-lines, only-values, only-bytes, count sit between instrumented ones. PRNG-chosen v-yield calls (Gosched / microsecond sleeps) between operations. Every read/write is an event on one logical clock. Non-trivial = pipeline in which at least one item was received by an instrumented stage; distinct by program text.",
+		Rule: "case = random pipeline of 2..6 stages, run twice (GOMAXPROCS from {1,2,4,16}) on fresh interpreters under the race detector. Instrumented stages are Elvish lambdas: producers (0..300 values and 0..300 byte lines with unique ids, written one by one with put/echo or through the Frame API, or in bulk with put $@l / to-lines / one big print; padding up to 4 KB per line so that totals exceed the 32-slot channel and the 64 KiB pipe), filters (each / for x [(all)]) that record every item and re-emit it under their own id on the value band, the byte band or the band it came on, early-exit readers (read k values straight from the channel, read k lines with read-line, or read nothing), stages at positions 2..n that redirect their OWN stdin (`< file`, `3< file 0<&3`, `0<&-`; instrumented lambdas and the builtins nop/count/all/take) placed after writers that exceed the channel buffer, throwers (fail after k items / at the end); native stages all, take k, to-lines, from-lines, only-values, only-bytes, count sit between instrumented ones. PRNG-chosen v-yield calls (Gosched / microsecond sleeps) between operations. Every read/write is an event on one logical clock. Non-trivial = pipeline in which at least one item was received by an instrumented stage; distinct by program text.",
 		Assumptions: []string{
 			"a program-level deadlock is not a violation and is not generated: a reader that waits for the end of ONE band while never reading the other (from-lines, read-line loops, value-only readers) is only placed after a stage that can write at most 24 values / 16 KB to the unread band",
 			"the relative order of the value band and the byte band is not constrained (each merges them); only the per-band order is",
@@ -948,6 +1085,7 @@ func Spec() *mon.Spec {
 		HangViolation: true,
 		Floors: map[string]int{"stages_writing_lines_over_4k": 5, "distinct_nontrivial": 60, "complete_reads": 100, "early_exit_readers": 80, "early_exits_noticed_by_writer": 30,
 			"items_received": 5000, "pipelines_beyond_channel_buffer": 35, "pipelines_beyond_pipe_buffer": 2, "pipelines_with_exception": 35,
-			"pipelines_with_several_exceptions": 5, "interleavings": 80},
+			"pipelines_with_several_exceptions": 5, "interleavings": 80,
+			"stages_with_own_stdin_redirection": 60, "stdin_redirections_after_writer_beyond_channel_buffer": 20},
 	}
 }
